@@ -1076,7 +1076,7 @@ func writeEvidence(prop string, eng *engineDef, tier string, seed int64, runs, d
 		"runs_per_hour":               float64(runs) / hours,
 		"seeds_per_hour":              float64(runs) / hours,
 		"outcomes":                    outcomes,
-		"inconclusive_runs":           outcomes["budget"],
+		"inconclusive":                fmt.Sprintf("%d of %d runs exhausted their step budget before the workload finished (no verdict on them; more than 1%% would fail the check as harness trouble)", outcomes["budget"], runs),
 		"faults_fired":                faults,
 		"reach_probes":                probes,
 		"switch_pair_coverage":        pairs,
